@@ -13,6 +13,10 @@
    Parameter fix (operator argument; constants FixLock/FixAck in the MC spec), a record:
      fix.lock  FALSE  _get_schedule as in the code: no try/finally around the locked section
                TRUE   the repaired action: lock released in a finally
+     fix.stale FALSE  _get_schedule as in the code (until /repo's "fix: re-validate an overheard schedule"): a
+                      schedule overheard while the transfer waited for the lock is still in _full_schedule when
+                      the fragment loop starts, so the loop's "if self._full_schedule:" ends it at once
+               TRUE   the repaired action: _full_schedule is emptied when the loop starts
      fix.ack   FALSE  Schedule._handle_msg as in the code: every 0404 message of the controller that
                       the dispatcher routes to the zone - RP fragments, but also the I
                       acknowledgements of writes, which carry no fragment - goes into the fragment set
@@ -32,8 +36,8 @@ EXTENDS Integers, Sequences, FiniteSets, TLC
 NoneV  == -1      \* None: no version known / no schedule / empty slot
 Mixed  == -2      \* a schedule decoded from fragments of two versions
 Ack    == -4      \* a write acknowledgement (I|0404: fragment header, no fragment) sitting in a slot
-AsIs   == [lock |-> FALSE, ack |-> FALSE]
-Fixed  == [lock |-> TRUE, ack |-> TRUE]
+AsIs   == [lock |-> FALSE, ack |-> FALSE, stale |-> FALSE]
+Fixed  == [lock |-> TRUE, ack |-> TRUE, stale |-> TRUE]
 NoZone == 0
 
 NFrags(c) == IF c >= 2 THEN 3 ELSE 2             \* shared convention with the harness (checks/c18.py); never shrinks
@@ -88,60 +92,61 @@ Fail(G, z, why, fix) ==
               ELSE G
     IN  Done(G1, z, why, NoneV)
 
-BeginFrags(G, z) ==                                   \* self._payload_set[0] = None ; loop
-    LET r == Z(G, z) IN
-    SetZ(G, z, [r EXCEPT !.pset = [r.pset EXCEPT ![1] = NoneV], !.pc = "w_frag"])
+BeginFrags(G, z, fix) ==                              \* self._payload_set[0] = None ; loop
+    LET r == Z(G, z) IN                                   \* (fix.stale: and self._full_schedule = {})
+    SetZ(G, z, [r EXCEPT !.pset = [r.pset EXCEPT ![1] = NoneV], !.pc = "w_frag",
+                         !.full = IF fix.stale THEN NoneV ELSE r.full])
 
-AfterLock(G, z) ==
+AfterLock(G, z, fix) ==
     LET r == Z(G, z) IN
     IF r.op = "get"
-    THEN IF r.did THEN BeginFrags(G, z) ELSE SetZ(G, z, [r EXCEPT !.pc = "w_v3"])
+    THEN IF r.did THEN BeginFrags(G, z, fix) ELSE SetZ(G, z, [r EXCEPT !.pc = "w_v3"])
     ELSE SetZ(G, z, [r EXCEPT !.pc = "w_put", !.k = 1])
 
 \* one iteration of the _obtain_lock loop
-TryLock(G, z) ==
+TryLock(G, z, fix) ==
     LET G1 == IF G.lock = NoZone THEN [G EXCEPT !.lock = z] ELSE G IN
-    IF G1.lock = z THEN AfterLock(G1, z)
+    IF G1.lock = z THEN AfterLock(G1, z, fix)
     ELSE SetZ(G1, z, [Z(G1, z) EXCEPT !.pc = "w_lock"])
 
 \* _get_schedule after  is_dated, did_io = await self._is_dated(...)
-AfterDated(G, z, dated, did) ==
+AfterDated(G, z, dated, did, fix) ==
     LET r  == Z(G, z)
         r1 == [r EXCEPT !.did = did, !.full = IF dated THEN NoneV ELSE r.full]
         G1 == SetZ(G, z, r1)
-    IN  IF r1.full # NoneV THEN Done(G1, z, "ok", r1.full) ELSE TryLock(G1, z)
+    IN  IF r1.full # NoneV THEN Done(G1, z, "ok", r1.full) ELSE TryLock(G1, z, fix)
 
 NewXfer(r, op, force, tid) ==
     [r EXCEPT !.op = op, !.force = force, !.did = FALSE, !.pc = "run", !.exit = "none",
               !.res = NoneV, !.tid = tid, !.n = 0, !.k = 0, !.nfr = 0, !.wr = NoneV]
 
 \* get_schedule(force_io): runs synchronously up to its first await (or to the end)
-StartGet(G, z, force, tid) ==
+StartGet(G, z, force, tid, fix) ==
     LET r0 == NewXfer(Z(G, z), "get", force, tid)
         G0 == SetZ(G, z, r0)
     IN
     IF (~force /\ r0.sver = 0) \/ (r0.gver # 0 /\ r0.gver > r0.sver)
-    THEN AfterDated(G0, z, TRUE, FALSE)
+    THEN AfterDated(G0, z, TRUE, FALSE, fix)
     ELSE IF G.m6 # NoneV /\ G.fresh                     \* _schedule_version(): cached value
          THEN LET r1 == [r0 EXCEPT !.gver = G.m6]
                   G1 == SetZ(G0, z, r1)
-              IN  IF r1.gver > r1.sver THEN AfterDated(G1, z, TRUE, FALSE)
+              IN  IF r1.gver > r1.sver THEN AfterDated(G1, z, TRUE, FALSE, fix)
                   ELSE IF force THEN SetZ(G1, z, [r1 EXCEPT !.pc = "w_v2"])
-                  ELSE AfterDated(G1, z, FALSE, FALSE)
+                  ELSE AfterDated(G1, z, FALSE, FALSE, fix)
          ELSE SetZ(G0, z, [r0 EXCEPT !.pc = "w_v1"])
 
 \* set_schedule(schedule of version wr)
-StartSet(G, z, wr, tid) ==
+StartSet(G, z, wr, tid, fix) ==
     LET r0 == [NewXfer(Z(G, z), "set", FALSE, tid) EXCEPT !.wr = wr, !.nfr = NFrags(wr)] IN
-    TryLock(SetZ(G, z, r0), z)
+    TryLock(SetZ(G, z, r0), z, fix)
 
 \* the awaited RP|0006 arrived (change counter = ctr)
-OnVer(G, z, ctr) ==
+OnVer(G, z, ctr, fix) ==
     LET G1 == [G EXCEPT !.m6 = ctr, !.fresh = TRUE]
         r  == [Z(G, z) EXCEPT !.gver = ctr, !.n = @ + 1]
         G2 == SetZ(G1, z, r)
-    IN  CASE r.pc \in {"w_v1", "w_v2"} -> AfterDated(G2, z, r.gver > r.sver, TRUE)
-          [] r.pc = "w_v3" -> BeginFrags(G2, z)
+    IN  CASE r.pc \in {"w_v1", "w_v2"} -> AfterDated(G2, z, r.gver > r.sver, TRUE, fix)
+          [] r.pc = "w_v3" -> BeginFrags(G2, z, fix)
           [] r.pc = "w_sv" -> Done(Release(SetZ(G2, z, [r EXCEPT !.sver = ctr, !.full = r.wr])),
                                    z, "ok", r.wr)
           [] OTHER -> G
